@@ -17,6 +17,7 @@ import (
 
 	"github.com/imoore76/ldlm/lock"
 	grpcsvc "github.com/imoore76/ldlm/net/grpc"
+	pb "github.com/imoore76/ldlm/protos"
 	"github.com/imoore76/ldlm/server"
 	"github.com/imoore76/ldlm/server/ipc"
 	"github.com/imoore76/ldlm/server/session/store"
@@ -85,6 +86,26 @@ func errTokByText(msg string) string {
 	return "other"
 }
 
+// codeTok renders the error of a protobuf response (via-service mode): the NAME of its code, as the generated
+// ErrorCode_name table of the tree under test spells it. The message is not part of the observation.
+func codeTok(e *pb.Error) string {
+	if e == nil {
+		return "~"
+	}
+	if n, ok := pb.ErrorCode_name[int32(e.Code)]; ok && n != "" && !strings.ContainsAny(n, " \t\n") {
+		return "code:" + n
+	}
+	return "code:#" + strconv.Itoa(int(e.Code))
+}
+
+func i32(p *int32) *int32 {
+	if p == nil {
+		return nil
+	}
+	v := *p
+	return &v
+}
+
 type sess struct {
 	ctx    context.Context
 	cancel context.CancelFunc
@@ -97,8 +118,8 @@ type completion struct {
 	at     time.Duration
 	locked bool
 	key    string
-	err    error
-	nilLk  bool
+	etok   string   // error token: name of the Go error variable (direct) or of the code (via service)
+	bad    []string // via service: anomalies of the response (svcbad lines)
 }
 
 type tev struct {
@@ -109,6 +130,7 @@ type tev struct {
 // Exec runs one history. It must be called inside a synctest bubble.
 type Exec struct {
 	cfg      Cfg
+	viaSvc   bool // requests go through the grpc.Service handlers
 	path     string
 	srv      *server.LockServer
 	closer   func()
@@ -211,11 +233,14 @@ func (x *Exec) collect(cur int, outs *[]string) {
 			// patch the key into the E line of the lock call
 			x.trace[pos].eline[7] = hx(c.key)
 		}
-		if c.idx == cur {
-			*outs = append(*outs, fmt.Sprintf("r lock %s %s %s", b01(c.locked), hx(c.key), errTok(c.err)))
+		if c.etok == "" {
+			// via service: the handler failed or returned no message; only the anomaly lines report it
+		} else if c.idx == cur {
+			*outs = append(*outs, fmt.Sprintf("r lock %s %s %s", b01(c.locked), hx(c.key), c.etok))
 		} else {
-			*outs = append(*outs, fmt.Sprintf("w %d %d %s %s %s", c.idx, int64(c.at), b01(c.locked), hx(c.key), errTok(c.err)))
+			*outs = append(*outs, fmt.Sprintf("w %d %d %s %s %s", c.idx, int64(c.at), b01(c.locked), hx(c.key), c.etok))
 		}
+		*outs = append(*outs, c.bad...)
 	}
 }
 
@@ -295,6 +320,21 @@ func (x *Exec) killAll() {
 	x.mu.Unlock()
 }
 
+// lockResp reads a *pb.LockResponse (Lock, TryLock, Renew through the service). etok == "" means there is no response to
+// report (the handler failed or returned no message); bad lists what the trace format has no place for.
+func lockResp(reqName string, resp *pb.LockResponse, rerr error) (locked bool, key, etok string, bad []string) {
+	switch {
+	case rerr != nil:
+		return false, "", "", []string{"svcbad handler-error lock " + hx(rerr.Error())}
+	case resp == nil:
+		return false, "", "", []string{"svcbad no-message lock"}
+	}
+	if resp.Name != reqName {
+		bad = append(bad, "svcbad name-echo lock "+hx(resp.Name))
+	}
+	return resp.Locked, resp.Key, codeTok(resp.Error), bad
+}
+
 // Step executes event i of the history and appends its trace entry.
 func (x *Exec) Step(i int, ev Ev) {
 	e := tev{}
@@ -318,14 +358,25 @@ func (x *Exec) Step(i int, ev Ev) {
 		se.ended = true
 	case "try":
 		ctx, sidTok := x.ctxFor(ev.S)
-		lk, err := x.srv.TryLock(ctx, unhx(ev.Name), ev.Size, ev.Lt)
-		key, locked := "", false
-		if lk != nil {
-			key, locked = lk.Key, lk.Locked
+		key, locked, etok := "", false, "~"
+		var bad []string
+		if x.viaSvc {
+			name := unhx(ev.Name)
+			resp, rerr := x.svc.TryLock(ctx, &pb.TryLockRequest{Name: name, Size: i32(ev.Size), LockTimeoutSeconds: i32(ev.Lt)})
+			locked, key, etok, bad = lockResp(name, resp, rerr)
+		} else {
+			lk, err := x.srv.TryLock(ctx, unhx(ev.Name), ev.Size, ev.Lt)
+			if lk != nil {
+				key, locked = lk.Key, lk.Locked
+			}
+			etok = errTok(err)
 		}
 		x.keys[i] = key
 		e.eline = []string{"try", sidTok, hx(unhx(ev.Name)), optTok(ev.Size), optTok(ev.Lt), hx(key)}
-		outs = append(outs, fmt.Sprintf("r lock %s %s %s", b01(locked), hx(key), errTok(err)))
+		if etok != "" {
+			outs = append(outs, fmt.Sprintf("r lock %s %s %s", b01(locked), hx(key), etok))
+		}
+		outs = append(outs, bad...)
 	case "lock":
 		ctx, sidTok := x.ctxFor(ev.S)
 		cctx, cancel := context.WithCancel(ctx)
@@ -333,12 +384,24 @@ func (x *Exec) Step(i int, ev Ev) {
 		e.eline = []string{"lock", strconv.Itoa(i), sidTok, hx(unhx(ev.Name)), optTok(ev.Size), optTok(ev.Lt), optTok(ev.Wt), "-"}
 		x.lockEv[i] = len(x.trace)
 		name := unhx(ev.Name)
+		viaSvc := x.viaSvc
+		svc := x.svc
+		srv := x.srv
 		go func() {
-			lk, err := x.srv.Lock(cctx, name, ev.Size, ev.Lt, ev.Wt)
-			at := time.Since(x.start)
-			c := completion{idx: i, at: at, err: err}
-			if lk != nil {
-				c.key, c.locked = lk.Key, lk.Locked
+			c := completion{idx: i}
+			if viaSvc {
+				// the per-call context is derived from the connection's (session's) context, as grpc-go derives a stream's
+				// context from the one TagConn returned: it ends when the client goes away; the wait timeout is the server's own
+				resp, rerr := svc.Lock(cctx, &pb.LockRequest{Name: name, Size: i32(ev.Size), LockTimeoutSeconds: i32(ev.Lt), WaitTimeoutSeconds: i32(ev.Wt)})
+				c.at = time.Since(x.start)
+				c.locked, c.key, c.etok, c.bad = lockResp(name, resp, rerr)
+			} else {
+				lk, err := srv.Lock(cctx, name, ev.Size, ev.Lt, ev.Wt)
+				c.at = time.Since(x.start)
+				c.etok = errTok(err)
+				if lk != nil {
+					c.key, c.locked = lk.Key, lk.Locked
+				}
 			}
 			x.mu.Lock()
 			if !x.dropping {
@@ -363,11 +426,34 @@ func (x *Exec) Step(i int, ev Ev) {
 	case "unl":
 		ctx, sidTok := x.ctxFor(ev.S)
 		key := x.resolveKey(ev.Key)
-		u, err := x.srv.Unlock(ctx, unhx(ev.Name), key)
+		u, etok := false, "~"
+		var bad []string
+		if x.viaSvc {
+			name := unhx(ev.Name)
+			resp, rerr := x.svc.Unlock(ctx, &pb.UnlockRequest{Name: name, Key: key})
+			switch {
+			case rerr != nil:
+				etok, bad = "", []string{"svcbad handler-error unl " + hx(rerr.Error())}
+			case resp == nil:
+				etok, bad = "", []string{"svcbad no-message unl"}
+			default:
+				u, etok = resp.Unlocked, codeTok(resp.Error)
+				if resp.Name != name {
+					bad = []string{"svcbad name-echo unl " + hx(resp.Name)}
+				}
+			}
+		} else {
+			var err error
+			u, err = x.srv.Unlock(ctx, unhx(ev.Name), key)
+			etok = errTok(err)
+		}
 		e.eline = []string{"unl", sidTok, hx(unhx(ev.Name)), hx(key)}
 		x.quiesce()
 		x.collect(i, &outs)
-		outs = append(outs, fmt.Sprintf("r unl %s %s", b01(u), errTok(err)))
+		if etok != "" {
+			outs = append(outs, fmt.Sprintf("r unl %s %s", b01(u), etok))
+		}
+		outs = append(outs, bad...)
 	case "ren":
 		ctx, _ := x.ctxFor(ev.S)
 		key := x.resolveKey(ev.Key)
@@ -375,13 +461,24 @@ func (x *Exec) Step(i int, ev Ev) {
 		if ev.Lt != nil {
 			lt = *ev.Lt
 		}
-		lk, err := x.srv.Renew(ctx, unhx(ev.Name), key, lt)
-		rk, locked := "", false
-		if lk != nil {
-			rk, locked = lk.Key, lk.Locked
+		rk, locked, etok := "", false, "~"
+		var bad []string
+		if x.viaSvc {
+			name := unhx(ev.Name)
+			resp, rerr := x.svc.Renew(ctx, &pb.RenewRequest{Name: name, Key: key, LockTimeoutSeconds: lt})
+			locked, rk, etok, bad = lockResp(name, resp, rerr)
+		} else {
+			lk, err := x.srv.Renew(ctx, unhx(ev.Name), key, lt)
+			if lk != nil {
+				rk, locked = lk.Key, lk.Locked
+			}
+			etok = errTok(err)
 		}
 		e.eline = []string{"ren", hx(unhx(ev.Name)), hx(key), strconv.Itoa(int(lt))}
-		outs = append(outs, fmt.Sprintf("r lock %s %s %s", b01(locked), hx(rk), errTok(err)))
+		if etok != "" {
+			outs = append(outs, fmt.Sprintf("r lock %s %s %s", b01(locked), hx(rk), etok))
+		}
+		outs = append(outs, bad...)
 	case "cancel":
 		c, ok := x.cancels[ev.W]
 		if !ok {
@@ -513,6 +610,9 @@ func (x *Exec) Finish() {
 func (x *Exec) Lines(id string) []string {
 	ls := []string{"H " + id,
 		fmt.Sprintf("C %s %s %d %d %d", b01(x.cfg.NoClear), b01(x.cfg.File), x.cfg.GcI, x.cfg.GcM, x.cfg.Dlt)}
+	if x.viaSvc {
+		ls = append(ls, "V service")
+	}
 	for _, e := range x.trace {
 		ls = append(ls, "E "+strings.Join(e.eline, " "))
 		for _, o := range e.outs {
@@ -527,6 +627,7 @@ func RunHistory(h *History, statePath string, gen func(x *Exec, i int) (Ev, bool
 	os.Remove(statePath)
 	os.Remove(statePath + ".tmp")
 	x := NewExec(h.Cfg, statePath)
+	x.viaSvc = h.Mode == "service"
 	x.start = time.Now()
 	if err := x.boot(); err != nil {
 		return []string{"H " + h.ID, "B boot-error " + hx(err.Error()), "X"}, "boot: " + err.Error()
